@@ -48,6 +48,7 @@ static void ptxt(const char *fmt, ...) {
 }
 #define BAD(key, ...) do { char _b[700]; snprintf(_b, sizeof(_b), __VA_ARGS__); vf_fail(key, "flags=%#x dtor=%d seed=%llu len=%d: %s | program: %s", c->flags, c->with_dtor, cur_seed, c->nlive, _b, prog_txt); } while (0)
 
+static bool inject_faults; static long long st_failed_allocs;
 static long long st_threshold, st_iter_upd, st_iter_ins, st_giant, st_maxlive, st_ops, st_updates, st_updates_dup, st_refused, st_growths, st_wrap_clusters, st_iter_rm, st_iter_rm_wrap, st_itr_rm, st_dtor, st_keys_same_slot, st_walks;
 
 static val_t *new_val(void) { if (n_vals >= MAXV) return NULL; val_t *v = &V[n_vals]; v->id = n_vals; v_dead[n_vals] = false; n_vals++; return v; }
@@ -101,7 +102,24 @@ static void op_put(map_t *c, const char *name, vf_rng *r) {
         else { char *k = vf_malloc(strlen(name) + 1); strcpy(k, name); kp = k; live0 = vf_live(); seq0 = vf_alloc_seq; }
     } else kp = name;
     ptxt("put(%s,v%d) ", name, v->id);
+    /* now and then the first or second allocation made by the call fails: the put is refused without effect */
+    bool fault = inject_faults && vf_chance(r, 1, 9);
+    if (fault) vf_fault_arm(1 + (long)vf_below(r, 2));
     int ret = m_map_put(c->m, kp, v);
+    fault = vf_fault_disarm() && fault;
+    if (fault && ret < 0) {
+        ptxt("[alloc failed] ");
+        st_failed_allocs++;
+        if ((c->flags & M_MAP_KEY_AUTOFREE) && !(c->flags & M_MAP_KEY_DUP) && !e->live) vf_free((void *)kp);   /* refused: the key is still ours */
+        expect_dtor(c, NULL, 0, "put refused for lack of memory");
+        void *now = m_map_get(c->m, name);
+        int got = now ? ((val_t *)now)->id : -1, exp = e->live ? e->val : -1;
+        if (got != exp) BAD("C05/get", "after a put of %s refused for lack of memory (%d): get returns v%d, model expects v%d", name, ret, got, exp);
+        if (vf_live() != live0 - ((c->flags & M_MAP_KEY_AUTOFREE) && !(c->flags & M_MAP_KEY_DUP) && !e->live ? 1 : 0))
+            BAD("C05/alloc-balance", "after a put refused for lack of memory: %ld allocations live, %ld before the call", (long)vf_live(), (long)live0);
+        check_len(c, "put refused for lack of memory");
+        return;
+    }
     if (c->flags & M_MAP_KEY_DUP) memset(tmp, '#', sizeof(tmp) - 1);   /* caller's buffer is gone: the copy must be private */
     bool grew = (vf_alloc_seq - seq0) - ((c->flags & M_MAP_KEY_DUP) ? 1 : 0) > 0 && vf_free_seq > fseq0;
     if (!e->live) {
@@ -410,6 +428,7 @@ static void run_sequence(uint64_t seed, int maxops, bool sample) {
             nontriv = true;
         }
     }
+    inject_faults = vf_chance(&r, 1, 4);       /* a quarter of the sequences run with failing allocations */
     for (int i = 0; i < nops && n_vals < MAXV - 8; i++) {
         int o = vf_below(&r, 100);
         const char *k = keys[vf_below(&r, nk)];
@@ -428,6 +447,7 @@ static void run_sequence(uint64_t seed, int maxops, bool sample) {
         else op_scan(c, "scan");
         h = vf_mix(h, o * 131 + c->nlive);
     }
+    inject_faults = false;
     op_scan(c, "final scan");
     ptxt("free");
     int ids[MAXK]; int n = 0;
@@ -464,6 +484,7 @@ int main(int argc, char **argv) {
     vf_stat("updates", st_updates);
     vf_stat("updates_in_keydup_maps", st_updates_dup);
     vf_stat("refused_puts", st_refused);
+    vf_stat("puts_refused_by_injected_allocation_failure", st_failed_allocs);
     vf_stat("table_growths", st_growths);
     vf_stat("wrap_cluster_sequences", st_wrap_clusters);
     vf_stat("giant_chain_sequences", st_giant);
